@@ -64,7 +64,7 @@ pub fn check(e: &Engine) {
 	let exhaustive_len = e.tier.pick(3, 4);
 	e.enumerate(
 		"exhaustive",
-		"all sequences of the 11 lifecycle controls up to the bound x {burst, settled} x 4 child classes; non-trivial = >=2 spawns and (graceful control or burst)",
+		"all sequences of the 11 lifecycle controls plus the raw ContinueTryGracefulRestart control up to the bound x {burst, settled} x 4 child classes; non-trivial = >=2 spawns and (graceful control or burst)",
 		true,
 		jobgen::exhaustive_cases(exhaustive_len),
 		&run,
